@@ -49,11 +49,30 @@ def scratch():
     return _scratch
 
 
+_bindir = None
+
+
+def bindir():
+    """Where this run's binaries go: a directory of its own under out/ (on disk, certainly executable)."""
+    global _bindir
+    if _bindir is None:
+        os.makedirs(OUT, exist_ok=True)
+        for old in os.listdir(OUT):     # left by a run that was killed
+            po = os.path.join(OUT, old)
+            if old.startswith("bin-") and time.time() - os.path.getmtime(po) > 6 * 3600:
+                shutil.rmtree(po, ignore_errors=True)
+        _bindir = tempfile.mkdtemp(prefix="bin-", dir=OUT)
+    return _bindir
+
+
 def cleanup():
-    global _scratch
+    global _scratch, _bindir
     if _scratch and os.path.isdir(_scratch):
         shutil.rmtree(_scratch, ignore_errors=True)
     _scratch = None
+    if _bindir and os.path.isdir(_bindir):
+        shutil.rmtree(_bindir, ignore_errors=True)
+    _bindir = None
 
 
 # --------------------------------------------------------------------------- build
@@ -61,16 +80,33 @@ def cleanup():
 _built = {}
 
 
+def harness_dir():
+    """The harness module.  It names the tree under test in a replace directive (=> /repo); for another tree
+    (VERIF_REPO, used only by tools/ when a changed copy of the repository is checked without touching /repo)
+    a scratch copy of the module with that directive rewritten is used."""
+    if REPO == "/repo":
+        return HARNESS
+    d = os.path.join(scratch(), "harness")
+    if not os.path.isdir(d):
+        shutil.copytree(HARNESS, d)
+        gm = open(os.path.join(d, "go.mod")).read()
+        gm2 = re.sub(r"=> /repo\b", "=> " + REPO, gm)
+        if gm2 == gm:
+            raise Machinery("harness go.mod has no replace directive for /repo")
+        open(os.path.join(d, "go.mod"), "w").write(gm2)
+    return d
+
+
 def build_vh(race=False):
-    """Build the harness binary against /repo's current working tree."""
+    """Build the harness binary against /repo's current working tree.  The binary goes to this run's scratch
+    directory, so that checks running side by side never execute a file another one is rewriting."""
     key = "race" if race else "plain"
     if key in _built:
         return _built[key]
-    os.makedirs(os.path.join(OUT, "bin"), exist_ok=True)
-    out = os.path.join(OUT, "bin", "vh-race" if race else "vh")
+    out = os.path.join(bindir(), "vh-race" if race else "vh")
     cmd = [GO, "build", "-tags", "verif"] + (["-race"] if race else []) + ["-o", out, "./cmd/vh"]
     t0 = time.time()
-    p = subprocess.run(cmd, cwd=HARNESS, env=GOENV, stdout=subprocess.PIPE, stderr=subprocess.STDOUT, text=True)
+    p = subprocess.run(cmd, cwd=harness_dir(), env=GOENV, stdout=subprocess.PIPE, stderr=subprocess.STDOUT, text=True)
     if p.returncode != 0:
         raise Machinery("harness build failed (does /repo compile with -tags verif?):\n" + p.stdout[-4000:])
     log(f"[build] vh{' -race' if race else ''} built in {time.time()-t0:.1f}s")
@@ -82,8 +118,7 @@ def build_server():
     """Build the real bazel-remote binary (package main) from /repo."""
     if "server" in _built:
         return _built["server"]
-    os.makedirs(os.path.join(OUT, "bin"), exist_ok=True)
-    out = os.path.join(OUT, "bin", "bazel-remote")
+    out = os.path.join(bindir(), "bazel-remote")
     p = subprocess.run([GO, "build", "-tags", "verif", "-o", out, "."], cwd=REPO, env=GOENV,
                        stdout=subprocess.PIPE, stderr=subprocess.STDOUT, text=True)
     if p.returncode != 0:
@@ -221,6 +256,35 @@ def run_tlc(module, cfg, env=None, workers=1, timeout=1800, extra=None, coverage
     if r.reject or r.invariant:
         r.trace_text = out[-20000:]
     return r
+
+
+def run_apalache(module, args, timeout=600):
+    """Run apalache-mc check in a scratch copy of spec/.  Returns (outcome, wall_s, tail) where outcome is
+    "ok", "error" (a counterexample: the obligation does not hold) or "unavailable" (time-out, tool failure:
+    the obligation is then simply not discharged and is reported as such, never as a verdict)."""
+    d = tempfile.mkdtemp(prefix="apa-", dir=scratch())
+    for f in os.listdir(SPEC):
+        if f.endswith(".tla"):
+            shutil.copy(os.path.join(SPEC, f), d)
+    e = dict(os.environ)
+    e["HOME"] = d          # apalache writes ~/.tlaplus
+    t0 = time.time()
+    try:
+        p = subprocess.run(["timeout", str(timeout), "apalache-mc", "check", "--out-dir=" + os.path.join(d, "out"),
+                            "--run-dir=" + os.path.join(d, "run")] + args + [module], cwd=d, env=e,
+                           stdout=subprocess.PIPE, stderr=subprocess.STDOUT, text=True, errors="replace")
+        out = p.stdout
+    except OSError as ex:
+        return "unavailable", time.time() - t0, str(ex)
+    finally:
+        pass
+    wall = time.time() - t0
+    shutil.rmtree(d, ignore_errors=True)
+    if "EXITCODE: OK" in out and "The outcome is: NoError" in out:
+        return "ok", wall, out[-600:]
+    if "The outcome is: Error" in out:
+        return "error", wall, out[-3000:]
+    return "unavailable", wall, out[-1500:]
 
 
 def sany(module):
@@ -369,6 +433,9 @@ def load_known():
     return out
 
 
+LAST_KNOWN = 0
+
+
 class Verdict:
     """Collects violations for one run, triages against known findings."""
 
@@ -376,6 +443,8 @@ class Verdict:
         self.prop = prop
         self.violations = []   # dict(prop, sig, what, replay)
         self.known_hits = {}
+        self.new_count = 0     # occurrences that no known finding explains (set by finish)
+        self.known_count = 0   # occurrences explained by a listed known finding
 
     def add(self, prop, sig, what, replay):
         # signatures are compared modulo concrete numbers, hashes and sizes
@@ -395,6 +464,9 @@ class Verdict:
                 self.known_hits.setdefault((hit["property"], hit["signature"]), hit)
             else:
                 new.append(v)
+        self.new_count, self.known_count = len(new), len(self.violations) - len(new)
+        global LAST_KNOWN
+        LAST_KNOWN = self.known_count
         for (p, s), k in self.known_hits.items():
             log(f"KNOWN-FINDING: property={p} {k['what']}")
         seen = set()
@@ -427,7 +499,12 @@ def write_replay(v):
 # --------------------------------------------------------------------------- evidence
 
 def write_evidence(prop, tier, level, coverage, wall_s, violations, assumptions=None):
+    # (VERIF_EVIDENCE_DIR: used by tools/seedrun.sh so that runs against a deliberately broken tree do not
+    # overwrite the evidence of the unchanged one)
+    EVID = os.environ.get("VERIF_EVIDENCE_DIR") or globals()["EVID"]
     os.makedirs(EVID, exist_ok=True)
+    coverage = dict(coverage)
+    coverage["known_finding_occurrences"] = LAST_KNOWN   # violations explained by entries of known_findings.jsonl (not counted below)
     doc = {
         "property_id": prop, "tier": tier, "seed": seed(), "level": level, "coverage": coverage,
         "assumptions": assumptions or [], "wall_s": round(wall_s, 2), "violations": violations,
